@@ -13,7 +13,7 @@ ID = "C08"
 LEVEL = "fault_enumeration"
 COUNTS = {"quick": 3000, "thorough": 150000}
 RULE = ("CHECK CONDITION faults with generated sense payloads (response code 70h-73h/unknown x 16 keys x ASC/ASCQ x VALID x "
-        "length 1-252 x filler; 3% empty buffers over iSCSI) injected into commands on the SG_IO and iSCSI devices; the application then does str(), print() "
+        "length 1-252 x filler; 3% empty buffers over iSCSI; a quarter on a re-executed command object, a quarter through the facade) injected into commands on the SG_IO and iSCSI devices; the application then does str(), print() "
         "and reads key/asc/ascq. Enumerated: all 256 ASCQ for every (format, key, ASC) = the full 65536-pair code space per key "
         "and format (thorough), one key per format (quick). Non-trivial = at least one payload was delivered as CHECK CONDITION "
         "and reached the decoder; distinct = event digest")
@@ -27,7 +27,7 @@ ASSUMPTIONS = [
     "T10 text is demanded (case-insensitive substring) only for the ~150 well-known codes in t10/sense.py and the 15 named sense keys",
     "for response codes outside 70h-73h only 'does not raise' is demanded",
 ]
-REQUIRED_PROBES = ["reinspected", "print_data_option", "decoded_ok", "text_ok", "rc_deferred", "rc_unknown", "short_buffer", "long_sense_iscsi", "empty_sense_iscsi"]
+REQUIRED_PROBES = ["reinspected", "print_data_option", "decoded_ok", "text_ok", "rc_deferred", "rc_unknown", "short_buffer", "long_sense_iscsi", "empty_sense_iscsi", "command_object_reused", "through_facade"]
 
 RCS = [0x70, 0x71, 0x72, 0x73]
 
@@ -91,6 +91,11 @@ def generate(rng, idx, tier):
     for _ in range(n):
         ops.append({"sense": gen_payload(rng).hex(), "transport": rng.choice(["sgio", "iscsi"]),
                     "raw": rng.random() < 0.15})
+        r = rng.random()
+        if r < 0.25:
+            ops[-1]["reuse"] = True          # the command object of the previous failure on this transport is executed again (retry loop)
+        elif r < 0.5:
+            ops[-1]["facade"] = True         # the command goes through the facade (SCSI.testunitready), as applications do
         if rng.random() < 0.03:
             # CHECK CONDITION whose sense buffer is present but empty (the iSCSI binding hands over zero bytes; the SG_IO binding
             # reports an unspecified error in that case, which is C07's)
@@ -182,13 +187,27 @@ def judge(exc, handed, where, V):
 KEPT = []      # error objects kept by the application (a log of failures), re-inspected at the end of the run
 
 
-def one(dev, sense, raw, where, V):
+LAST_CMD = {}
+FACADES = {}
+
+
+def one(dev, sense, raw, where, V, reuse=False, facade=False):
     from pyscsi.pyscsi.scsi_cdb_testunitready import TestUnitReady
-    cmd = TestUnitReady(dev.opcodes.TEST_UNIT_READY)
+    if reuse and LAST_CMD.get(where) is not None:
+        cmd = LAST_CMD[where]
+        WORLD.probe("command_object_reused")
+    else:
+        cmd = TestUnitReady(dev.opcodes.TEST_UNIT_READY)
+    LAST_CMD[where] = cmd
     WORLD.armed.clear()
     WORLD.arm({"kind": "sense_payload", "sense": sense.hex()})
     mark = len(WORLD.deliveries)
-    kind, val = worlds.outcome_of(lambda: dev.execute(cmd, en_raw_sense=True) if raw else dev.execute(cmd))
+    if facade and not raw and where in FACADES:
+        WORLD.probe("through_facade")
+        kind, val = worlds.outcome_of(lambda: FACADES[where].testunitready())
+        cmd = None
+    else:
+        kind, val = worlds.outcome_of(lambda: dev.execute(cmd, en_raw_sense=True) if raw else dev.execute(cmd))
     d = WORLD.deliveries[mark:]
     if not d or d[0]["status"] != 0x02:
         raise RuntimeError("harness: sense payload was not delivered")
@@ -234,6 +253,11 @@ def execute(prog):
     V = []
     n = 0
     del KEPT[:]
+    LAST_CMD.clear()
+    FACADES.clear()
+    SCSI = worlds.lib()[0]
+    for t, d in devs.items():
+        FACADES[t] = SCSI(d, blocksize=512)
     if prog.get("sweep"):
         sw = prog["sweep"]
         dev = devs[sw["transport"]]
@@ -248,7 +272,7 @@ def execute(prog):
                 break
     for i, op in enumerate(prog["ops"]):
         WORLD.ev("op", i=i, transport=op["transport"])
-        one(devs[op["transport"]], bytes.fromhex(op["sense"]), op.get("raw", False), op["transport"], V)
+        one(devs[op["transport"]], bytes.fromhex(op["sense"]), op.get("raw", False), op["transport"], V, reuse=op.get("reuse", False), facade=op.get("facade", False))
         n += 1
     # errors collected earlier must still say what they said: later errors must not change them
     V2 = []
